@@ -448,6 +448,17 @@ theorem C17_ignored_forever (domainId : Nat) (tag : String) (ops1 ops2 : List St
     · simp [remove]
   exact run_ignoredOut ops2 _ h2 h (run_ignored_mono ops2 h _ h3)
 
+/-- the ignored set only grows: no step — in particular no dispose, no lease expiry — takes a participant out of it -/
+theorem C17_ignored_set_monotone (s : St) (ops : List Step) (h : Nat) (hi : h ∈ s.ignored) : h ∈ (run s ops).ignored :=
+  run_ignored_mono ops h s hi
+
+/-- why the dispose must keep the ignored set (seeded change C17_d): if the dispose of an ignored participant also removed it
+    from the ignored set, ONE late copy of its announcement would list it again; the code as it is does not -/
+theorem C17_ignored_forever_seeded_counterexample :
+    keys (spdp (removeSeeded ((ignore (spdp (St.init 0 "") ⟨5, some 0, "", 100⟩ 0).1 5).getD (St.init 0 "")) 5) ⟨5, some 0, "", 100⟩ 1).1.list = [5] ∧
+    keys (run (St.init 0 "") [.spdp ⟨5, some 0, "", 100⟩ 0, .ignore 5, .dispose 5, .spdp ⟨5, some 0, "", 100⟩ 1]).list = [] := by
+  decide
+
 /-! ### a changed lease was ignored (repaired defect D-spdp-1) -/
 
 /-- regression witness: before the repair the data of an already discovered participant was never updated: announced with a
